@@ -990,7 +990,7 @@ func (r *vcRun) apply(op []json.RawMessage) []interface{} {
 			if !hasTag || !hasConv || (r.lastSt != nil && r.lastSt.Tag && r.jobTag == "?") {
 				return nil
 			}
-			names := []string{"cv"}
+			names := []string{"cv", "cw"} // two converters get queued streams at once: ONE converter job, one snapshot
 			if vcArgStr(op, 0) == "convdetach" {
 				names = nil
 			}
@@ -1118,8 +1118,10 @@ func (r *vcRun) scenario(w *bufio.Writer) {
 	}
 	r.pcapDir, r.idxDir = ds["pcap"], ds["index"]
 	if r.sc.Conv {
-		if err := os.WriteFile(filepath.Join(ds["converter"], "cv"), []byte(vcConverterScript), 0775); err != nil {
-			r.t.Fatal(err)
+		for _, cn := range []string{"cv", "cw"} {
+			if err := os.WriteFile(filepath.Join(ds["converter"], cn), []byte(vcConverterScript), 0775); err != nil {
+				r.t.Fatal(err)
+			}
 		}
 	}
 	r.seen = map[string]bool{}
